@@ -382,22 +382,22 @@ Section Integrator.
   (* executable certificate: [S] is (as a set) the leaf set of a cover of interval
      [i] -- either {i} or the union of covers of both children.  Evaluated on
      approximating_intervals at every step of every correspondence case. *)
-  Fixpoint cov (fuel : nat) (s : st) (S : list nat) (i : nat) : option (list nat) :=
+  Fixpoint cov (fuel : nat) (s : st) (Sl : list nat) (i : nat) : option (list nat) :=
     match fuel with
     | 0 => None
     | S fuel' =>
-        if nat_mem i S then Some [i] else
+        if nat_mem i Sl then Some [i] else
         match children (get s i) with
-        | [l; r] => match cov fuel' s S l, cov fuel' s S r with
+        | [l; r] => match cov fuel' s Sl l, cov fuel' s Sl r with
                     | Some x, Some y => Some (x ++ y)
                     | _, _ => None
                     end
         | _ => None
         end
     end.
-  Definition partition_cert (s : st) (S : list nat) : bool :=
-    match cov (length (ivs s)) s S 0 with
-    | Some L => forallb (fun k => nat_mem k L) S
+  Definition partition_cert (s : st) (Sl : list nat) : bool :=
+    match cov (length (ivs s)) s Sl 0 with
+    | Some L => forallb (fun k => nat_mem k L) Sl
     | None => false
     end.
 End Integrator.
